@@ -194,6 +194,11 @@ impl RayCast for HeightField {
                 (Real::max_value(), false)
             };
 
+            // The next cell boundaries are never behind the ray: a negative time can only result
+            // from rounding errors when the ray starts very close to a cell boundary.
+            let toi_x = toi_x.max(0.0);
+            let toi_z = toi_z.max(0.0);
+
             if toi_x > max_t && toi_z > max_t {
                 break;
             }
